@@ -62,7 +62,7 @@ def main():
             return ok, out[-1500:]
         if demo in ("demo.sh", "demo.py"):
             interp = "bash" if demo == "demo.sh" else "python3"
-            rc, out = sh(f"{interp} {mutdir}/{demo} {wt} 2>&1 | tail -40; exit ${{PIPESTATUS[0]}}", cwd=wt)
+            rc, out = sh(["bash", "-c", f"{interp} {mutdir}/{demo} {wt} 2>&1 | tail -40; exit ${{PIPESTATUS[0]}}"], cwd=wt)
             return rc == 0, out[-1500:]
         return None, "no demo"
 
